@@ -4,9 +4,13 @@ package symx
 
 import (
 	"crypto/sha256"
+	"encoding/hex"
 	"fmt"
 	"go/token"
 	"go/types"
+	"path/filepath"
+	"strconv"
+	"strings"
 
 	"golang.org/x/tools/go/ssa"
 )
@@ -75,7 +79,89 @@ func registerRLP(ex *Explorer) {
 	})
 }
 
+func strArgs(v value) []string {
+	var out []string
+	for _, e := range v.([]value) {
+		out = append(out, e.(string))
+	}
+	return out
+}
+
+func registerStrings(ex *Explorer) {
+	ex.register("strings.Join", func(fr *frame, args []value) value {
+		return strings.Join(strArgs(args[0]), args[1].(string))
+	})
+	ex.register("path/filepath.Join", func(fr *frame, args []value) value { return filepath.Join(strArgs(args[0])...) })
+	ex.register("path/filepath.IsAbs", func(fr *frame, args []value) value { return filepath.IsAbs(args[0].(string)) })
+	ex.register("strings.ToUpper", func(fr *frame, args []value) value { return strings.ToUpper(args[0].(string)) })
+	ex.register("strings.ToLower", func(fr *frame, args []value) value { return strings.ToLower(args[0].(string)) })
+	ex.register("strings.Repeat", func(fr *frame, args []value) value {
+		return strings.Repeat(args[0].(string), int(asInt64(args[1])))
+	})
+	ex.register("strings.ReplaceAll", func(fr *frame, args []value) value {
+		return strings.ReplaceAll(args[0].(string), args[1].(string), args[2].(string))
+	})
+	ex.register("strings.HasSuffix", func(fr *frame, args []value) value {
+		return strings.HasSuffix(args[0].(string), args[1].(string))
+	})
+	ex.register("strings.HasPrefix", func(fr *frame, args []value) value {
+		return strings.HasPrefix(args[0].(string), args[1].(string))
+	})
+	ex.register("strings.TrimPrefix", func(fr *frame, args []value) value {
+		return strings.TrimPrefix(args[0].(string), args[1].(string))
+	})
+	ex.register("encoding/hex.EncodeToString", func(fr *frame, args []value) value {
+		bz, ok := concreteBytes(args[0].([]value))
+		if !ok {
+			return "<hex of symbolic bytes>"
+		}
+		return hex.EncodeToString(bz)
+	})
+	ex.register("encoding/hex.DecodeString", func(fr *frame, args []value) value {
+		bz, err := hex.DecodeString(args[0].(string))
+		if err != nil {
+			return tuple{[]value(nil), fr.i.newError(err.Error())}
+		}
+		return tuple{bytesToValues(bz), iface{}}
+	})
+	ex.register("strconv.Itoa", func(fr *frame, args []value) value { return strconv.Itoa(int(asInt64(args[0]))) })
+	ex.register("strconv.FormatInt", func(fr *frame, args []value) value {
+		if sv, ok := args[0].(symv); ok {
+			return fmt.Sprintf("<int %s>", clip(sv.t.String(), 40))
+		}
+		return strconv.FormatInt(asInt64(args[0]), int(asInt64(args[1])))
+	})
+	ex.register("strconv.FormatUint", func(fr *frame, args []value) value {
+		if sv, ok := args[0].(symv); ok {
+			return fmt.Sprintf("<uint %s>", clip(sv.t.String(), 40))
+		}
+		return strconv.FormatUint(asUint64(args[0]), int(asInt64(args[1])))
+	})
+	ex.register("strconv.ParseInt", func(fr *frame, args []value) value {
+		v, err := strconv.ParseInt(args[0].(string), int(asInt64(args[1])), int(asInt64(args[2])))
+		if err != nil {
+			return tuple{int64(0), fr.i.newError(err.Error())}
+		}
+		return tuple{v, iface{}}
+	})
+	// strings.Builder: only copyCheck / String use unsafe
+	ex.register("(*strings.Builder).copyCheck", noop)
+	ex.register("(*strings.Builder).String", func(fr *frame, args []value) value {
+		p := args[0].(*value)
+		if p == nil {
+			nilDeref()
+		}
+		buf := (*p).(structure)[1].([]value)
+		s, ok := valuesToString(buf)
+		if !ok {
+			unsupp("strings.Builder with symbolic bytes")
+		}
+		return s
+	})
+}
+
 func registerMisc(ex *Explorer) {
+	registerStrings(ex)
 	// transaction hash: injective on the identity of the encoded bytes
 	ex.register("(github.com/tendermint/tendermint/types.Tx).Hash", func(fr *frame, args []value) value {
 		b := args[0].([]value)
